@@ -14,7 +14,7 @@ that the palette indices of the log scalers can be compared exactly, and `scale`
 against an all-native evaluation.  `math.Pow` (heatmap legend of a
 log scale) is not ported: both sides replace that one line by `~`.
 
-Ops: `scname`, `scale`, `scalego`, `log`, `barw`, `stack`, `cell`, `strlen`, `fmtseq`, `hdr`, `tablew`, `histow`, `render histo|histo2|bars|table|heat|spark|reduce`, `rcli`.
+Ops: `scname`, `skeys`, `scale`, `scalego`, `log`, `barw`, `stack`, `cell`, `strlen`, `fmtseq`, `hdr`, `tablew`, `histow`, `render histo|histo2|bars|table|heat|spark|reduce`, `rcli`.
 -/
 namespace Rare.Drv.C14
 open Rare Rare.C14 Rare.C20 Rare.Proto
@@ -378,6 +378,20 @@ def handle : List String → String
       | some .log10 => "ok log10"
       | none => "ok none"
     | none => "bad-args"
+  | ["skeys", sc, nb, mn, mx] =>
+    -- `Scaler.ScaleKeys` directly: on the linear scale the key list of `scaleKeys` with the software binary64 (the definition
+    -- of legend_linear_f64 …), cross-checked against the native instance; on the log scales (`math.Pow` not ported) the
+    -- harness checks the shape of legend_keys_shape
+    match scaler? sc, nb.toInt?, mn.toInt?, mx.toInt? with
+    | some k, some nb, some mn, some mx =>
+      if nb < 1 ∨ 64 < nb then "bad-case buckets"
+      else match k with
+        | .linear =>
+          let m := ",".intercalate ((scaleKeys A k nb mn mx).map toString)
+          let n := ",".intercalate ((scaleKeys floatArith k nb mn mx).map toString)
+          if m = n then "ok " ++ m else s!"model-vs-native f64={m} native={n}"
+        | _ => "ok shape"
+    | _, _, _, _ => "bad-args"
   | ["scale", sc, v, mn, mx] =>
     match scaler? sc, v.toInt?, mn.toInt?, mx.toInt? with
     | some k, some v, some mn, some mx =>
